@@ -139,6 +139,33 @@ def parse_mir(text, crate):
             f.rawname = h[:cut]
             f.ret = h[cut + 2:-4]
             f.header = l
+        elif (l.startswith('const ') or l.startswith('static ')) and ' = const ' in l and l.endswith(';'):
+            # one-line item:  const PATH: TYPE = const VALUE;
+            h = l.split(' ', 1)[1]
+            cut = None
+            for k, c, d in _depth_scan(h):
+                if c == ':' and d == 0 and h[k:k + 2] == ': ':
+                    cut = k
+                    break
+            eq = h.index(' = const ', cut)
+            f = Fn()
+            f.kind = 'const'
+            f.args = []
+            f.rawname = h[:cut]
+            f.ret = h[cut + 2:eq]
+            f.header = l
+            f.crate = crate
+            f.locals = {'_0': f.ret}
+            f.blocks = {'bb0': (('_0 = ' + h[eq + 3:-1] + ';',), 'return;')}
+            f.parent = None
+            f.span = None
+            k_ = dupcount.get(f.rawname, 0)
+            dupcount[f.rawname] = k_ + 1
+            f.name = f.rawname if k_ == 0 else f'{f.rawname}#{k_}'
+            lastparent[f.rawname] = f.name
+            fns[f.name] = f
+            i += 1
+            continue
         elif l.startswith('alloc') and l.endswith('{'):
             m = re.match(r'^(alloc\d+) \((?:static: ([^,]+), )?size: (\d+), align: \d+\) \{$', l)
             if m:
